@@ -135,6 +135,8 @@ FLOAT_FACTORS = [
     ("2^40", "1099511627776.0L", Fraction(2 ** 40)), ("10^30", "1e30L", Fraction(10 ** 30)),
     ("1/10^30", "1e-30L", Fraction(1, 10 ** 30)), ("3", "3.0L", Fraction(3)), ("pi/180", "VF_PI/180.0L", None),
     ("180/pi", "180.0L/VF_PI", None), ("10^38", "1e38L", Fraction(10 ** 38)), ("10^300", "1e300L", Fraction(10 ** 300)),
+    # ratios that fit every floating type although their numerator or denominator alone exceeds float's range
+    ("10^39/7", "1e39L/7.0L", Fraction(10 ** 39, 7)), ("7/10^39", "7.0L/1e39L", Fraction(7, 10 ** 39)), ("3^90/10^41", "8727963568087712425891397479476727340041449.0L/1e41L", Fraction(3 ** 90, 10 ** 41)),
 ]
 
 
@@ -147,6 +149,8 @@ def float_dst(fname):
         "pi/180": "decltype(VfBase{} * au::mag<180>() / au::Magnitude<au::Pi>{})",
         "180/pi": "decltype(VfBase{} * au::Magnitude<au::Pi>{} / au::mag<180>())",
         "10^38": "decltype(VfBase{} / au::pow<38>(au::mag<10>()))", "10^300": "decltype(VfBase{} / au::pow<300>(au::mag<10>()))",
+        "10^39/7": "decltype(VfBase{} * au::mag<7>() / au::pow<39>(au::mag<10>()))", "7/10^39": "decltype(VfBase{} * au::pow<39>(au::mag<10>()) / au::mag<7>())",
+        "3^90/10^41": "decltype(VfBase{} * au::pow<41>(au::mag<10>()) / au::pow<90>(au::mag<3>()))",
     }
     return table[fname]
 
